@@ -3,9 +3,9 @@
    sumor to the OCaml natives; andb/orb inlined); N, positive and nat stay extracted
    inductives. *)
 From Coq Require Import Extraction ExtrOcamlBasic.
-From PJ.Model Require Import Base Lookup Terms Wire Encoder Streams Decoder Spec Api.
+From PJ.Model Require Import Base Lookup Terms Wire Encoder Streams Decoder Spec Audit Source Api.
 Extraction Language OCaml.
 Extraction "pj.ml"
-  api_lookup api_grouped_generic api_grouped_rdflib flat_stream_to_frames rdf_flat_stream_to_frames api_encode api_encode_rdflib api_encode_rdflib_grouped api_encode_grouped api_steps api_spec_bytes api_spec_payloads api_parse api_reser
+  api_audit_bytes api_parse_raw api_lookup api_grouped_generic api_grouped_rdflib flat_stream_to_frames rdf_flat_stream_to_frames api_encode api_encode_rdflib api_encode_rdflib_grouped api_encode_grouped api_steps api_spec_bytes api_spec_payloads api_parse api_reser
   hint ser_frame write_delimited1 emitted raised catalogued flat_events grouped_sinks
   flow_new type_compat spec_compat options_from_frame stream_new options_row.
